@@ -40,6 +40,10 @@ def run(tier, res, replay=None):
               'opt-only-upper-region', 'opt-only-lower-region-dd',
               'opt-bare-kc', 'opt-dummy-pins', 'opt-htc-custom-dd'):
         lab.append((k, sl[k]))
+    # the coarser assembly with the shorter corner cells (a duct cell that
+    # lies inside one gap cell)
+    lab.append(('7-tight-coarse-among-loose-fine',
+                scenarios.tight_among_loose(rng)))
     results = marchcheck.run_cases(lab, res, C02_CLAUSES)
     opprobe.run_probes(res, tier, rng, focus='C02',
                        cases_override=[(l, c) for l, c in lab
